@@ -665,6 +665,7 @@ func (h *H) eval(c *mon.Case, sc *scenario) bool {
 func TestCheck(t *testing.T) {
 	r := mon.Start(t, "C17")
 	defer r.Finish()
+	r.SpinWatch(memwire.BytesMoved)
 	h := &H{r: r}
 	r.Note("rule", ruleNote)
 	r.Note("exhaustive_part", exhaustiveNote(r))
